@@ -307,7 +307,9 @@ func run(e *core.Env) {
 	// none of its priority numbers may repeat - also not when the *peer's* sequence wraps - and
 	// each of its frames unseals once at the other side, not twice.
 	duplex := !link && tp.Chance(1, 2)
+	backRegular := tp.Chance(1, 2) // the receiver's own frames: priority only, or both classes
 	type backFrame struct {
+		prio bool
 		seq  uint32
 		key  string
 		data []byte
@@ -315,20 +317,26 @@ func run(e *core.Env) {
 	var back []backFrame
 	rh := &state.EncryptionSessionTestHelper{EncryptionSession: rSess.Encryption()}
 	sendBack := func() {
-		f, err := R.Inst.Builder.NewFrameV1(R.IP, S.IP, frame.RouterCtrl, nil, []byte("priority frame of the receiver ........"), nil)
+		// its own frames are of both classes: neither counter may be touched by the peer's wrap
+		prio := backRegular == false || tp.Chance(1, 2)
+		mt := frame.RouterCtrl
+		if !prio {
+			mt = frame.NetworkTraffic
+		}
+		f, err := R.Inst.Builder.NewFrameV1(R.IP, S.IP, mt, nil, []byte("frame of the receiving router .........."), nil)
 		if err != nil {
 			e.Infra("frame: %v", err)
 		}
 		if err := f.Seal(rSess); err != nil {
-			e.Fail("seal-failed-or-panicked", "the receiver cannot seal a priority frame of its own: %v", err)
+			e.Fail("seal-failed-or-panicked", "the receiver cannot seal a frame of its own (priority=%v): %v", prio, err)
 		}
 		d, _ := f.FrameDataWithMargins(0, 0)
-		bf := backFrame{seq: f.SequenceNum(), key: string(rh.OutKey()), data: append([]byte(nil), d...)}
+		bf := backFrame{prio: prio, seq: f.SequenceNum(), key: string(rh.OutKey()), data: append([]byte(nil), d...)}
 		f.ReturnToPool()
 		for _, o := range back {
-			if o.seq == bf.seq && o.key == bf.key {
+			if o.prio == bf.prio && o.seq == bf.seq && o.key == bf.key {
 				e.Fail("sequence-number-reused-under-one-key/reverse-direction",
-					"the receiving router sealed two priority frames of its own with number %d under one unchanged out key (after %d own frames; the peer's sequence wrapped: %v)", bf.seq, len(back), rolled)
+					"the receiving router sealed two frames of its own (priority=%v) with number %d under one unchanged out key (after %d own frames; the peer's sequence wrapped: %v)", bf.prio, bf.seq, len(back), rolled)
 			}
 		}
 		back = append(back, bf)
@@ -390,12 +398,12 @@ func run(e *core.Env) {
 		// The receiver's frames arrive at the (wrapped) sender: each once.
 		for i, bf := range back {
 			if err := unsealAtS(bf); err != nil {
-				e.Fail("fresh-frame-refused/reverse-direction", "priority frame %d of the receiving router (number %d) does not unseal at its peer: %v", i, bf.seq, err)
+				e.Fail("fresh-frame-refused/reverse-direction", "frame %d of the receiving router (priority=%v number %d) does not unseal at its peer: %v", i, bf.prio, bf.seq, err)
 			}
 		}
 		for _, i := range []int{0, len(back) / 2, len(back) - 1} {
 			if err := unsealAtS(back[i]); err == nil {
-				e.Fail("dup-accepted/reverse-direction", "priority frame %d of the receiving router (number %d) unseals a second time at its peer (peer's own sequence wrapped: %v)", i, back[i].seq, rolled)
+				e.Fail("dup-accepted/reverse-direction", "frame %d of the receiving router (priority=%v number %d) unseals a second time at its peer (peer's own sequence wrapped: %v)", i, back[i].prio, back[i].seq, rolled)
 			}
 		}
 	}
